@@ -6,6 +6,7 @@ import (
 	"sync"
 	"unsafe"
 
+	"github.com/philpearl/plenc/internal/verifhook"
 	"github.com/philpearl/plenc/plenccore"
 )
 
@@ -34,10 +35,12 @@ func BuildMapCodec(p CodecBuilder, registry CodecRegistry, typ reflect.Type, tag
 	}
 
 	keyCodec, err := p.CodecForTypeRegistry(registry, typ.Key(), "")
+	verifhook.Yield("mapkey")
 	if err != nil {
 		return nil, fmt.Errorf("failed to find codec for map key %s. %w", typ.Key().Name(), err)
 	}
 	valueCodec, err := p.CodecForTypeRegistry(registry, typ.Elem(), "")
+	verifhook.Yield("mapval")
 	if err != nil {
 		return nil, fmt.Errorf("failed to find codec for map value %s. %w", typ.Elem().Name(), err)
 	}
@@ -219,6 +222,7 @@ func (c *MapCodec) readMapEntry(mp, k unsafe.Pointer, data []byte) (int, error) 
 		k = c.kZero
 	}
 
+	verifhook.Yield("mapassign")
 	// Assign/find a place in the map for this key. Val is a pointer to where
 	// the value should be. We're going to unmarshal into this directly
 	val := mapassign(unpackEFace(c.rtype).data, mp, k)
